@@ -939,7 +939,12 @@ def render() -> tuple[str, dict[str, str], Gen]:
             idx[kind] += 1
         a = (' A' if g.uses_attr[k.name] else '') + (' AV' if k.vec_attrs else '')
         call = f'{k.name}{a} ' + ' '.join(parts)
-        out.append(f'  | "{k.name}" => some ({call})\n' if k.out == 'vec' else f'  | "{k.name}" => some [{call}]\n')
+        if k.out == 'vec':
+            out.append(f'  | "{k.name}" => some ({call})\n')
+        elif k.out == 'nat':
+            out.append(f'  | "{k.name}" => some [Float.ofNat ({call})]\n')
+        else:
+            out.append(f'  | "{k.name}" => some [{call}]\n')
     out.append('  | _ => none\n\n')
     allk = list(KERNELS) + list(SYM_KERNELS)
     out.append('def kernelNames : List String := [' + ', '.join(f'"{k.name}"' for k in allk if k.name in g.defs) + ']\n')
@@ -951,7 +956,7 @@ def render() -> tuple[str, dict[str, str], Gen]:
 def is_vector_kernel(k, g) -> bool:
     if not isinstance(k, SymKernel):
         return False
-    return k.out == 'vec' or bool(k.vec_attrs) or any(kind in ('vec', 'nat') for _, kind in g.sig.get(k.name, []))
+    return k.out in ('vec', 'nat') or bool(k.vec_attrs) or any(kind in ('vec', 'nat') for _, kind in g.sig.get(k.name, []))
 
 
 def regenerate() -> dict[str, str]:
@@ -1005,6 +1010,9 @@ class SymKernel:
     vec_attrs: tuple = ()              # attribute chains that hold arrays ('traj.fuel_mass'): read from `AV : String → List α`
     cut_expr: dict = field(default_factory=dict)     # source text of an expression -> (input name, 'real'|'vec'|'nat'|'bool')
     slice_objs: dict = field(default_factory=dict)   # local name of a slice object -> (nat input lo, nat input hi)
+    loop_seq: bool = False             # with loop=True: do not stop after the first matching loop; every later matching loop is
+                                       # evaluated as one more generic iteration for the SAME generic element (loops over the keys
+                                       # of one mapping whose iterations touch only their own entries)
     loop_over: str = ''                # with loop=True: the iterable (source text) of the loop to take instead of `range(...)`
     cut_attr: dict = field(default_factory=dict)     # attribute chain ('pt.ground_speed') -> input name: an input once assigned
 
@@ -1377,6 +1385,8 @@ class Sym:
 
     def _ev(self, e: ast.AST, env: dict) -> V:
         src = self.mod.src
+        if isinstance(e, ast.Subscript) and ast.unparse(e) in env:
+            return env[ast.unparse(e)]                # `indices[species]` inside a generic loop iteration, once it was stored to
         if self.spec.cut_expr and not isinstance(e, ast.Constant):
             text = ast.unparse(e)
             if text in self.spec.cut_expr:
@@ -1611,6 +1621,8 @@ class Sym:
             return self.pointwise(lambda x, y: self.merge(c, x, y, base), a, b)
         if self.is_inf(a) or self.is_inf(b) or isinstance(a, Cond) or isinstance(b, Cond):
             return self.mk_cond(c, a, b)
+        if isinstance(a, Nv) and isinstance(b, Nv):
+            return a if a.e == b.e else Nv(f'(if {c.e} then {a.e} else {b.e})', c.deps | a.deps | b.deps)
         if isinstance(a, Dv) and isinstance(b, Dv):
             out = {}
             for k in list(a.d) + [k for k in b.d if k not in a.d]:
@@ -1645,6 +1657,8 @@ class Sym:
             if isinstance(c, Lv):
                 return self.pointwise(lambda cc, x, y: self.merge(cc, x, y, 'sel'), c, self._ev(args[1], env), self._ev(args[2], env))
             return self.merge(c, self._ev(args[1], env), self._ev(args[2], env), 'sel')
+        if isinstance(f, ast.Name) and f.id == 'slice' and len(args) == 2 and 'slice' not in env and not e.keywords:
+            return Tv([self.nat_of(self._ev(a, env), a) for a in args])      # slice(start, stop) of two lengths
         if isinstance(f, ast.Name) and f.id == 'len' and len(args) == 1 and 'len' not in env:
             X, d = self.mat(self._ev(args[0], env), ast.unparse(args[0]))
             return Nv(f'(List.length {X})', d)
@@ -2116,9 +2130,13 @@ class Sym:
             env[k] = self.merge(c, a, b, k.replace('.', '_'))
 
     def for_stmt(self, st: ast.For, env: dict):
-        if (self.spec.loop and not self.in_loop and self.depth == 0 and isinstance(st.iter, ast.Call)
-                and isinstance(st.iter.func, ast.Name) and st.iter.func.id == 'range'):
+        if self.spec.loop and not self.in_loop and self.depth == 0 and (
+                (self.spec.loop_over and ast.unparse(st.iter) == self.spec.loop_over) or
+                (not self.spec.loop_over and isinstance(st.iter, ast.Call) and isinstance(st.iter.func, ast.Name)
+                 and st.iter.func.id == 'range')):
             self.generic_iteration(st, env)
+            if self.spec.loop_seq:
+                return                                # later loops over the same keys continue with the same generic element
             raise LoopDone()
         it = self.ev(st.iter, env)
         items = None
@@ -2236,6 +2254,9 @@ class Sym:
             if spec.out == 'vec':
                 X, d = self.mat(v, spec.target)
                 r = R(X, d)
+            elif spec.out == 'nat':
+                nv = self.nat_of(v)
+                r = R(nv.e, nv.deps)
             else:
                 r = self.real(v, spec.target)
         except Untranslatable as ex:
@@ -2255,7 +2276,10 @@ class Sym:
         if spec.vec_attrs:
             a += ' (AV : String → List α)'
         body = ''.join(f'  let {n} : {ty} := {ex}\n' for n, ty, ex in keep)
-        text = f'def {spec.name}{a}{binders} : {"List α" if spec.out == "vec" else "α"} :=\n{body}  {r.e}\n'
+        if optional_env and '(A "' not in body + r.e:
+            a = a.replace(' (A : String → α)', '')
+        rty = {'vec': 'List α', 'nat': 'Nat'}.get(spec.out, 'α')
+        text = f'def {spec.name}{a}{binders} : {rty} :=\n{body}  {r.e}\n'
         sig = inputs + [(n, 'bool') for n in self.spec.cond_inputs.values()]
         return text, sig, [k for k in self.attr_keys if f'(A "{k}")' in text]
 
@@ -2312,6 +2336,30 @@ SYM_KERNELS.append(SymKernel('mass_update_bwd', _FB, 'BaseFuelBurnModel.update_m
                              _VIN + [('segment_distance', 'vec')], 'return', out='vec'))
 SYM_KERNELS.append(SymKernel('mass_update_bwd_scalar_dx', _FB, 'BaseFuelBurnModel.update_mass_vector_backward',
                              _VIN + ['segment_distance'], 'return', out='vec'))
+# vector kernels of the inventory assembly (C01): per-segment fuel burn, the emission window, amounts = index × burn, totals
+_EM, _TR = 'emissions/emission.py', 'emissions/trajectory.py'
+SYM_KERNELS.append(SymKernel('segment_fuel_burn', _EM, 'compute_emissions', [], 'fuel_burn_per_segment', out='vec',
+                             vec_attrs=('traj.fuel_mass',)))
+SYM_KERNELS.append(SymKernel('lifecycle_co2', _EM, 'get_lifecycle_emissions', [], 'return', vec_attrs=('traj.fuel_mass',)))
+SYM_KERNELS.append(SymKernel(
+    'species_total', _EM, 'sum_total_emissions', [('traj_vals', 'vec'), 'lto_sum', 'apu_val', 'gse_val'], 'total',
+    loop=True, loop_over='Species',
+    cond_inputs={'species in trajectory': 'in_traj', 'species in lto': 'in_lto', 'config.emissions.apu_enabled': 'apu_enabled',
+                 'species in apu': 'in_apu', 'config.emissions.gse_enabled': 'gse_enabled', 'species in gse': 'in_gse'},
+    cut_expr={'trajectory[species]': ('traj_vals', 'vec'), 'lto[species].sum()': ('lto_sum', 'real'),
+              'apu[species]': ('apu_val', 'real'), 'gse[species]': ('gse_val', 'real')}))
+_TRW = dict(loop=True, loop_seq=True, loop_over='indices.keys()', cut_obj=('idx_slice',), slice_objs={'idx_slice': ('lo', 'hi')},
+            cut_expr={'indices[species]': ('idx', 'vec')})
+for _n, _t, _o in (('traj_emissions', 'emissions[species]', 'vec'), ('traj_indices', 'indices[species]', 'vec'),
+                   ('traj_fuel_burn', 'total_fuel_burn', 'real')):
+    SYM_KERNELS.append(SymKernel(_n, _TR, 'get_trajectory_emissions',
+                                 [('idx', 'vec'), ('fuel_burn_per_segment', 'vec'), ('lo', 'nat'), ('hi', 'nat')], _t, out=_o, **_TRW))
+_SL = dict(cond_inputs={'config.emissions.climb_descent_mode != ClimbDescentMode.TRAJECTORY': 'lto_mode'},
+           cut_expr={'len(traj)': ('n', 'nat'), 'traj.n_climb': ('n_climb', 'nat'), 'traj.n_descent': ('n_descent', 'nat')})
+SYM_KERNELS.append(SymKernel('traj_window_lo', _TR, '_trajectory_slice', [('n', 'nat'), ('n_climb', 'nat'), ('n_descent', 'nat')],
+                             'return/0', out='nat', **_SL))
+SYM_KERNELS.append(SymKernel('traj_window_hi', _TR, '_trajectory_slice', [('n', 'nat'), ('n_climb', 'nat'), ('n_descent', 'nat')],
+                             'return/1', out='nat', **_SL))
 SYM_KERNELS.append(SymKernel('weather_ground_speed', 'weather.py', 'Weather.get_ground_speed',
                              ['true_airspeed', 'heading_rad', 'wind_u', 'wind_v'], 'return',
                              cut=('heading_rad', 'wind_u', 'wind_v')))
@@ -2320,7 +2368,7 @@ SYM_KERNELS.append(SymKernel('weather_ground_speed', 'weather.py', 'Weather.get_
 def translate_sym(g: Gen, errors: dict):
     for k in SYM_KERNELS:
         try:
-            text, sig, keys = Sym(k).translate(optional_env=bool(k.out == 'vec' or k.vec_attrs or
+            text, sig, keys = Sym(k).translate(optional_env=bool(k.out in ('vec', 'nat') or k.vec_attrs or k.cut_expr or
                                                                   any(not isinstance(i, str) and i[1] in ('vec', 'nat') for i in k.inputs)))
             tgt = f', target `{k.target}`'
             cs = ''.join(f' [{p} = {v}]' for p, v in k.consts.items())
